@@ -390,15 +390,23 @@ Lemma recall_guard recall :
   (Qlt_bool 1 recall || Qle_bool recall 0 = false <-> 0 < recall /\ recall <= 1)%bool.
 Proof. rewrite orb_false_iff, Qlt_bool_false, Qle_bool_false. tauto. Qed.
 
+Lemma Qeq_bool_false a b : Qeq_bool a b = false <-> ~ a == b.
+Proof.
+  split.
+  - intros H E. apply Qeq_bool_iff in E. congruence.
+  - intros H. destruct (Qeq_bool a b) eqn:E; [|reflexivity]. apply Qeq_bool_iff in E. contradiction.
+Qed.
+
 Theorem prior_formula_and_guard obs recall cart p :
   prior_estimate obs recall cart = PriorOk p ->
-  0 < recall /\ recall <= 1 /\ obs <= cart * recall /\ p == obs / (recall * cart) /\
+  0 < recall /\ recall <= 1 /\ obs <= cart * recall /\ ~ cart == 0 /\ p == obs / (recall * cart) /\
   (0 < cart -> 0 <= obs -> 0 <= p /\ p <= 1).
 Proof.
   unfold prior_estimate. destruct (Qlt_bool 1 recall || Qle_bool recall 0)%bool eqn:G; [discriminate|].
   apply recall_guard in G as [G0 G1].
   destruct (Qlt_bool (cart * recall) obs) eqn:C; [discriminate|]. apply Qlt_bool_false in C.
-  intros [= <-]. split; [exact G0|]. split; [exact G1|]. split; [exact C|].
+  destruct (Qeq_bool cart 0) eqn:Z; [discriminate|]. apply Qeq_bool_false in Z.
+  intros [= <-]. split; [exact G0|]. split; [exact G1|]. split; [exact C|]. split; [exact Z|].
   assert (E : obs / recall / cart == obs / (recall * cart)).
   { unfold Qdiv. rewrite Qinv_mult_distr. ring. }
   split; [exact E|]. intros Hc Ho. rewrite E.
@@ -415,7 +423,7 @@ Proof.
     assert (Qlt_bool 1 recall || Qle_bool recall 0 = false)%bool by (apply recall_guard; tauto). congruence.
   - apply recall_guard in G. destruct (Qlt_bool (cart * recall) obs) eqn:C.
     + apply Qlt_bool_iff in C. tauto.
-    + apply Qlt_bool_false in C. split; [discriminate|]. intros (_ & _ & H). lra.
+    + apply Qlt_bool_false in C. split; [destruct (Qeq_bool cart 0); discriminate|]. intros (_ & _ & H). lra.
 Qed.
 
 Theorem prior_bad_recall obs recall cart :
@@ -423,7 +431,23 @@ Theorem prior_bad_recall obs recall cart :
 Proof.
   unfold prior_estimate. destruct (Qlt_bool 1 recall || Qle_bool recall 0)%bool eqn:G.
   - split; [|reflexivity]. intros _ H. apply recall_guard in H. congruence.
-  - apply recall_guard in G. destruct (Qlt_bool (cart * recall) obs); split; try discriminate; tauto.
+  - apply recall_guard in G.
+    destruct (Qlt_bool (cart * recall) obs), (Qeq_bool cart 0); split; try discriminate; tauto.
+Qed.
+
+(* the guards pass but there is no admissible pair at all: the division raises *)
+Theorem prior_zero_division obs recall cart :
+  prior_estimate obs recall cart = PriorZeroDivision <->
+  (0 < recall /\ recall <= 1 /\ obs <= cart * recall /\ cart == 0).
+Proof.
+  unfold prior_estimate. destruct (Qlt_bool 1 recall || Qle_bool recall 0)%bool eqn:G.
+  - split; [discriminate|]. intros (H0 & H1 & _).
+    assert (Qlt_bool 1 recall || Qle_bool recall 0 = false)%bool by (apply recall_guard; tauto). congruence.
+  - apply recall_guard in G. destruct (Qlt_bool (cart * recall) obs) eqn:C.
+    + apply Qlt_bool_iff in C. split; [discriminate|]. intros (_ & _ & H & _). lra.
+    + apply Qlt_bool_false in C. destruct (Qeq_bool cart 0) eqn:Z.
+      * apply Qeq_bool_iff in Z. tauto.
+      * apply Qeq_bool_false in Z. split; [discriminate|]. tauto.
 Qed.
 
 (* ------------------------------------------------------------------------------------ *)
@@ -610,7 +634,8 @@ Qed.
 Definition prior_eqv (a b : prior_result) : Prop :=
   match a, b with
   | PriorOk p, PriorOk p' => p == p'
-  | BadRecall, BadRecall | RecallInconsistent, RecallInconsistent => True
+  | BadRecall, BadRecall | RecallInconsistent, RecallInconsistent
+  | PriorZeroDivision, PriorZeroDivision => True
   | _, _ => False
   end.
 
@@ -620,5 +645,124 @@ Proof.
   intros E. unfold prior_estimate. destruct (Qlt_bool 1 recall || Qle_bool recall 0)%bool; [exact I|].
   assert (H : Qlt_bool (c * recall) obs = Qlt_bool (c' * recall) obs).
   { apply bool_eq_iff. rewrite !Qlt_bool_iff, E. tauto. }
-  rewrite H. destruct (Qlt_bool (c' * recall) obs); [exact I|]. cbn [prior_eqv]. rewrite E. reflexivity.
+  rewrite H. destruct (Qlt_bool (c' * recall) obs); [exact I|].
+  assert (H0 : Qeq_bool c 0 = Qeq_bool c' 0) by (apply bool_eq_iff; rewrite !Qeq_bool_iff, E; tauto).
+  rewrite H0. destruct (Qeq_bool c' 0); [exact I|]. cbn [prior_eqv]. rewrite E. reflexivity.
 Qed.
+
+(* ------------------------------------------------------------------------------------ *)
+(* 10. the sample proportion of estimate_u_values, on the model functions (over R)        *)
+(* ------------------------------------------------------------------------------------ *)
+Section SamplingModel.
+Open Scope R_scope.
+
+Lemma sumr_INR ns : sumr (map INR ns) = INR (fold_right Nat.add O ns).
+Proof. unfold sumr. induction ns as [|n t IH]; cbn [map fold_right]; [reflexivity|]. rewrite IH, plus_INR. reflexivity. Qed.
+
+Lemma sample_proportion_full lt rc mp : 1 <= raw_proportion lt rc mp -> sample_proportion lt rc mp = 1.
+Proof. intros H. unfold sample_proportion. cbv zeta. destruct (Rle_dec 1 (raw_proportion lt rc mp)); [reflexivity|contradiction]. Qed.
+
+(* dedupe_only and link_and_dedupe: once max_pairs reaches n (n - 1) / 2 the whole table is used *)
+Theorem sample_full_all_pairs lt ns max_pairs :
+  lt <> LinkOnly -> (1 <= fold_right Nat.add O ns)%nat ->
+  INR (fold_right Nat.add O ns) * (INR (fold_right Nat.add O ns) - 1) / 2 <= max_pairs ->
+  sample_proportion lt (map INR ns) max_pairs = 1.
+Proof.
+  intros Hlt Hn Hp. apply sample_proportion_full.
+  assert (E : raw_proportion lt (map INR ns) max_pairs = rows_needed max_pairs / sumr (map INR ns))
+    by (destruct lt; [reflexivity|congruence|reflexivity]).
+  rewrite E, sumr_INR. unfold rows_needed.
+  pose proof (full_sample_when_enough_pairs _ _ Hn Hp) as H.
+  replace (1 / 2 * (sqrt (8 * max_pairs + 1) + 1)) with (0.5 * (sqrt (8 * max_pairs + 1) + 1)) by lra.
+  exact H.
+Qed.
+
+(* link_only: once max_pairs reaches the number of cross-table pairs *)
+Definition total_links (rc : list R) : R := ((sumr rc) ^ 2 - sumr (map (fun c => c ^ 2) rc)) / 2.
+
+Theorem sample_full_link_only rc max_pairs :
+  0 < total_links rc -> total_links rc <= max_pairs -> sample_proportion LinkOnly rc max_pairs = 1.
+Proof.
+  intros H0 H1. apply sample_proportion_full. cbn [raw_proportion]. unfold proportion_link_only. cbv zeta.
+  fold (total_links rc). apply link_only_full_sample; assumption.
+Qed.
+
+Lemma sumr_IZR ns : sumr (map INR ns) = IZR (zsum ns).
+Proof.
+  unfold sumr, zsum. induction ns as [|n t IH]; cbn [map fold_right]; [reflexivity|].
+  rewrite IH, plus_IZR, INR_IZR_INZ. reflexivity.
+Qed.
+Lemma sumr_sq_IZR ns : sumr (map (fun c => c ^ 2) (map INR ns)) = IZR (zsq ns).
+Proof.
+  unfold sumr, zsq. induction ns as [|n t IH]; cbn [map fold_right]; [reflexivity|].
+  rewrite IH, plus_IZR, mult_IZR, INR_IZR_INZ. ring.
+Qed.
+
+(* the model's total_links is the number of admissible link_only pairs *)
+Theorem link_only_total_links_is_admissible_pairs ns :
+  total_links (map INR ns) = INR (admissible_pairs LinkOnly ns).
+Proof.
+  unfold total_links, admissible_pairs. rewrite sumr_IZR, sumr_sq_IZR, INR_IZR_INZ.
+  pose proof (count_pairs_link ns 0) as H. apply (f_equal IZR) in H.
+  rewrite mult_IZR, minus_IZR, mult_IZR in H. lra.
+Qed.
+
+Theorem sample_full_link_only_pairs ns max_pairs :
+  (1 <= admissible_pairs LinkOnly ns)%nat -> INR (admissible_pairs LinkOnly ns) <= max_pairs ->
+  sample_proportion LinkOnly (map INR ns) max_pairs = 1.
+Proof.
+  intros H0 H1. apply sample_full_link_only; rewrite link_only_total_links_is_admissible_pairs; [|exact H1].
+  apply lt_0_INR. lia.
+Qed.
+End SamplingModel.
+
+(* ------------------------------------------------------------------------------------ *)
+(* 11. num_observed_matches counts each matched pair once                                 *)
+(* ------------------------------------------------------------------------------------ *)
+From Splinkv Require Base.TV Model.Blocking Proofs.BlockingP.
+
+Section Observed.
+Context {rec : Type} (adm : rec -> rec -> bool) (rules : list (rec -> rec -> Splinkv.Base.TV.tv)).
+
+Definition matched (lr : rec * rec) : bool :=
+  adm (fst lr) (snd lr) && existsb (fun rk => Splinkv.Base.TV.isT (rk (fst lr) (snd lr))) rules.
+
+Lemma cross_list_prod {A : Type} (L R : list A) : Splinkv.Model.Blocking.cross L R = list_prod L R.
+Proof. induction L as [|x t IH]; cbn; [reflexivity|]. rewrite <- IH. reflexivity. Qed.
+
+Lemma isT_true x : Splinkv.Base.TV.isT x = true <-> x = Splinkv.Base.TV.T.
+Proof. destruct x; cbn; split; congruence. Qed.
+
+Lemma block_pairs_nodup L : NoDup L -> NoDup (map snd (Splinkv.Model.Blocking.block adm rules L L)).
+Proof. intros H. unfold Splinkv.Model.Blocking.block. apply Splinkv.Proofs.BlockingP.block_aux_pairs_nodup; exact H. Qed.
+
+Lemma block_pair_present L l r : rules <> [] ->
+  ((exists n, In (n, (l, r)) (Splinkv.Model.Blocking.block adm rules L L)) <->
+   In l L /\ In r L /\ adm l r = true /\ exists rk, In rk rules /\ rk l r = Splinkv.Base.TV.T).
+Proof.
+  intros Hne. unfold Splinkv.Model.Blocking.block. destruct rules as [|a t] eqn:E; [congruence|].
+  rewrite <- (Splinkv.Proofs.BlockingP.first_true_some_iff rec 0 (a :: t) l r). split.
+  - intros [n H]. apply Splinkv.Proofs.BlockingP.block_aux_spec in H. destruct H as (?&?&?&_&?). eauto 6.
+  - intros (Hl & Hr & Ha & [n Hn]). exists n. apply Splinkv.Proofs.BlockingP.block_aux_spec. cbn [existsb]. tauto.
+Qed.
+
+Theorem observed_counts_distinct_pairs L : NoDup L -> rules <> [] ->
+  observed_matches adm rules L = length (filter matched (list_prod L L)).
+Proof.
+  intros HL Hne. unfold observed_matches.
+  rewrite <- (map_length snd (Splinkv.Model.Blocking.block adm rules L L)).
+  apply Permutation_length. apply NoDup_Permutation.
+  - apply block_pairs_nodup. exact HL.
+  - apply List.NoDup_filter. rewrite <- cross_list_prod. apply Splinkv.Proofs.BlockingP.NoDup_cross; exact HL.
+  - intros [l r]. rewrite filter_In, in_prod_iff. unfold matched. cbn [fst snd].
+    rewrite andb_true_iff, existsb_exists. split.
+    + intros H. apply in_map_iff in H as ([n [l' r']] & E & Hin). cbn in E. inversion E; subst.
+      assert (Hex : exists n, In (n, (l, r)) (Splinkv.Model.Blocking.block adm rules L L)) by eauto.
+      apply (block_pair_present L l r Hne) in Hex as (Hl & Hr & Ha & rk & Hrk & HT).
+      split; [tauto|]. split; [exact Ha|]. exists rk. split; [exact Hrk|]. apply isT_true. exact HT.
+    + intros ((Hl & Hr) & Ha & rk & Hrk & HT). apply isT_true in HT.
+      assert (Hex : exists n, In (n, (l, r)) (Splinkv.Model.Blocking.block adm rules L L)).
+      { apply (block_pair_present L l r Hne). eauto 8. }
+      destruct Hex as [n Hn]. apply in_map_iff. exists (n, (l, r)). split; [reflexivity|exact Hn].
+Qed.
+End Observed.
